@@ -335,6 +335,121 @@ pub fn oracle(args: &Args) {
                 made += 1;
             }
         }
+        // repgames --n N --seed S: games (root FEN + move list) at whose end the side to move is hopelessly behind
+        // in material but has one move that re-creates a position which already occurred in the game since the last
+        // capture or pawn move. Output: `rep <root fen> <moves> <repeating move> <class>` (tab separated), class =
+        // which earlier position is repeated (the first of the reversible tail - given by the FEN, or right after a
+        // capture, or right after a pawn move - or a later one).
+        "repgames" => {
+            let n = args.u64("--n", 40);
+            let seed = args.u64("--seed", 1);
+            let mut rng = Rng::new(seed, 783);
+            // (fen, weak side): no castling rights; the weak side has a bare king plus at most a pawn or a minor piece
+            let bases: [(&str, Color); 10] = [
+                ("6k1/8/8/8/8/8/8/R2Q2K1 w - - 0 1", Color::B),
+                ("6k1/8/8/8/8/8/8/R2Q2K1 b - - 0 1", Color::B),
+                ("1r2q1k1/8/8/8/8/8/8/6K1 b - - 0 1", Color::W),
+                ("1r2q1k1/8/8/8/8/8/8/6K1 w - - 0 1", Color::W),
+                ("6k1/7p/8/8/8/8/8/R2Q2K1 b - - 3 20", Color::B),
+                ("1r2q1k1/8/8/8/8/8/7P/6K1 w - - 9 31", Color::W),
+                ("8/6kP/8/8/8/8/8/R2Q2K1 b - - 5 40", Color::B),
+                ("1r2q1k1/8/8/8/8/8/6Kp/8 w - - 12 40", Color::W),
+                ("6k1/5n2/8/8/8/8/8/R2Q1RK1 w - - 0 1", Color::B),
+                ("1r1rq1k1/8/8/8/8/8/5N2/6K1 b - - 2 9", Color::W),
+            ];
+            let ident = |p: &Pos| p.digest(None);
+            let reversible = |p: &Pos, m: &Mv| !m.capture && !m.castle && m.promo.is_none() && !matches!(p.b[m.from as usize], Some(pc) if pc.k == Kind::P);
+            let mut made = 0;
+            let mut tries = 0;
+            while made < n && tries < n * 4000 {
+                tries += 1;
+                let (base, weak) = *rng.pick(&bases);
+                let root = Pos::from_fen(base).unwrap();
+                let mut p = root.clone();
+                let mut moves: Vec<String> = vec![];
+                // index (in plies from the root) of the first position of the reversible tail, and how it arose
+                let mut tail_start = 0usize;
+                let mut tail_kind = if root.hmc == 0 { "fen-clock-0" } else { "fen-clock-positive" };
+                let want = if rng.chance(1, 3) { 0 } else { rng.below(9) as usize };
+                let mut ok = true;
+                let mut guard = 0;
+                // random prefix; stop once `want` plies are played AND the strong side is to move
+                while moves.len() < want || p.stm == weak {
+                    guard += 1;
+                    let legal = p.legal_moves();
+                    let cand: Vec<Mv> = legal.iter().copied().filter(|m| {
+                        // the weak side never wins material (keeps the verdict obvious), nobody promotes
+                        let takes_big = m.capture && p.stm == weak && matches!(p.b[m.to as usize], Some(pc) if pc.k != Kind::P);
+                        !takes_big && m.promo.is_none() && !p.make(*m).legal_moves().is_empty()
+                    }).collect();
+                    if cand.is_empty() || guard > 30 {
+                        ok = false;
+                        break;
+                    }
+                    let m = *rng.pick(&cand);
+                    let irreversible = !reversible(&p, &m);
+                    let double_push = matches!(p.b[m.from as usize], Some(pc) if pc.k == Kind::P) && (rank_of(m.from) - rank_of(m.to)).abs() == 2;
+                    if double_push {
+                        ok = false; // keeps en-passant targets out of the identity question
+                        break;
+                    }
+                    p = p.make(m);
+                    moves.push(m.uci());
+                    if irreversible {
+                        tail_start = moves.len();
+                        tail_kind = if m.capture { "after-capture" } else { "after-pawn-move" };
+                    }
+                }
+                if !ok || p.stm == weak {
+                    continue;
+                }
+                // with probability 1/2 insist on repeating the FIRST position of the tail
+                if rng.chance(4, 5) && moves.len() != tail_start {
+                    continue;
+                }
+                let j = moves.len();
+                let pj = p.clone();
+                // there and back: strong a, weak b, strong a^-1; then weak b^-1 re-creates pj
+                let la: Vec<Mv> = pj.legal_moves().into_iter().filter(|m| reversible(&pj, m)).collect();
+                if la.is_empty() {
+                    continue;
+                }
+                let a = *rng.pick(&la);
+                let p1 = pj.make(a);
+                let lb: Vec<Mv> = p1.legal_moves().into_iter().filter(|m| reversible(&p1, m)).collect();
+                if lb.is_empty() {
+                    continue;
+                }
+                let b = *rng.pick(&lb);
+                let p2 = p1.make(b);
+                let Some(a_back) = p2.legal_moves().into_iter().find(|m| m.from == a.to && m.to == a.from && reversible(&p2, m)) else { continue };
+                let p3 = p2.make(a_back);
+                let Some(b_back) = p3.legal_moves().into_iter().find(|m| m.from == b.to && m.to == b.from && reversible(&p3, m)) else { continue };
+                let p4 = p3.make(b_back);
+                if ident(&p4) != ident(&pj) || p3.stm != weak || p3.legal_moves().is_empty() {
+                    continue;
+                }
+                // the weak side must really be lost otherwise: it has no queen or rook, the other side has at least a
+                // queen, or two rooks
+                let strong = weak.other();
+                if p3.count(weak, Kind::Q) + p3.count(weak, Kind::R) > 0 || (p3.count(strong, Kind::Q) == 0 && p3.count(strong, Kind::R) < 2) {
+                    continue;
+                }
+                moves.push(a.uci());
+                moves.push(b.uci());
+                moves.push(a_back.uci());
+                let class = if j == tail_start { format!("first-of-tail.{tail_kind}") } else { "later-in-tail".to_string() };
+                // classes in turn, so that a run of N games has about N/4 of each
+                let wanted = ["first-of-tail.fen", "first-of-tail.after-capture", "first-of-tail.after-pawn-move", "later-in-tail"][made as usize % 4];
+                if !class.starts_with(wanted) && tries < n * 3000 {
+                    continue;
+                }
+                let mut replies: Vec<String> = p3.legal_moves().iter().map(|m| m.uci()).collect();
+                replies.sort();
+                println!("rep\t{}\t{}\t{}\t{}\t{}", base, moves.join(" "), b_back.uci(), class, replies.join(" "));
+                made += 1;
+            }
+        }
         // heavy --n N --seed S: legal positions whose depth-1 search is already huge (many queens)
         "heavy" => {
             crate::init();
@@ -412,7 +527,15 @@ pub fn oracle(args: &Args) {
                         idx += 1;
                     }
                     "info" => {
-                        if let Some((_, _, _, infos)) = cur.as_mut() {
+                        if let Some((ci, _, _, infos)) = cur.as_mut() {
+                            // a token that is not a move in long algebraic form (a line cut in the middle of a move, say)
+                            if let Some(tok) = f[4].split_whitespace().find(|t| {
+                                !t.is_ascii() || !(t.len() == 4 || t.len() == 5) || parse_sq(&t[0..2]).is_none() || parse_sq(&t[2..4]).is_none() || (t.len() == 5 && !"qrbn".contains(&t[4..5]))
+                            }) {
+                                if !f[4].is_empty() {
+                                    println!("bad\t{}\tc08.malformed-pv-token\tthe reported line '{}' (depth {}) contains '{}', which is not a move in long algebraic form", ci, f[4], f[1], tok);
+                                }
+                            }
                             let val: i16 = f[3].parse().unwrap_or(0);
                             let pv: Vec<Mv> = f[4]
                                 .split_whitespace()
